@@ -25,6 +25,13 @@ DEFAULTS = {
 }
 
 
+def u(node):
+    try:
+        return ast.unparse(node)
+    except Exception:
+        return '<%s>' % type(node).__name__
+
+
 def _kw(call):
     return {k.arg: k.value for k in call.keywords}
 
@@ -245,6 +252,56 @@ def extract(src):
                 raise Bad('_call_view: unexpected raise under `if not secure:`')
             vals['permissive_checks_predicates'] = False
     guard('_call_view secure=False branch', callview)
+
+    def state():
+        # STRUCTURAL facts: where the state the model treats as per-application / per-call lives
+        # (1) the view lookup cache is an INSTANCE attribute of the registry, bound to a fresh dict by __init__ and REBOUND to a
+        #     fresh dict by _clear_view_lookup_cache; no class-level attribute of that name (assumption A1 of the translator and
+        #     the independence of two applications in one process rest on it)
+        r = F.Module(src, 'pyramid/registry.py')
+        cls = r.find('Registry')
+        for st in cls.body:
+            if isinstance(st, (ast.Assign, ast.AnnAssign)):
+                for tg in (st.targets if isinstance(st, ast.Assign) else [st.target]):
+                    if any(isinstance(n, ast.Name) and n.id in ('_view_lookup_cache', '_lock') for n in ast.walk(tg)):
+                        raise Bad('Registry has a class-level %s' % u(tg))
+
+        def fresh_dict_assign(fn, n_expected):
+            hits = [st for st in ast.walk(fn) if isinstance(st, ast.Assign) and len(st.targets) == 1
+                    and u(st.targets[0]) == 'self._view_lookup_cache']
+            if len(hits) != n_expected or not all(isinstance(h.value, ast.Dict) and not h.value.keys for h in hits):
+                raise Bad('%s does not bind self._view_lookup_cache to a fresh {}' % fn.name)
+        init = r.find('Registry.__init__')
+        if not any(isinstance(n, ast.Call) and u(n.func) == 'self._clear_view_lookup_cache' and not n.args for n in ast.walk(init)):
+            fresh_dict_assign(init, 1)         # __init__ gives every registry its own cache: by the call or by the assignment
+        clr = F.strip_doc(r.find('Registry._clear_view_lookup_cache'))
+        fn = [n for n in ast.walk(clr) if isinstance(n, ast.FunctionDef)][0]
+        if len(fn.body) != 1:
+            raise Bad('Registry._clear_view_lookup_cache is not the single rebinding statement')
+        fresh_dict_assign(fn, 1)
+        # (2) no mutable class-level attribute and no mutable default argument in the files the model follows: state shared
+        #     between instances / kept across calls would make behaviour depend on history
+        MUT = (ast.List, ast.Dict, ast.Set, ast.ListComp, ast.DictComp, ast.SetComp)
+        MUTCALLS = {'list', 'dict', 'set', 'defaultdict', 'OrderedDict', 'deque', 'WeakKeyDictionary', 'WeakValueDictionary', 'bytearray'}
+
+        def mutable(v):
+            return isinstance(v, MUT) or (isinstance(v, ast.Call) and isinstance(v.func, (ast.Name, ast.Attribute))
+                                          and (v.func.id if isinstance(v.func, ast.Name) else v.func.attr) in MUTCALLS)
+        for rel in ('pyramid/viewderivers.py', 'pyramid/config/views.py', 'pyramid/config/security.py', 'pyramid/security.py',
+                    'pyramid/view.py', 'pyramid/router.py', 'pyramid/tweens.py', 'pyramid/registry.py', 'pyramid/request.py',
+                    'pyramid/threadlocal.py'):
+            m = F.Module(src, rel)
+            for n in ast.walk(m.tree):
+                if isinstance(n, ast.ClassDef):
+                    for st in n.body:
+                        if isinstance(st, (ast.Assign, ast.AnnAssign)) and st.value is not None and mutable(st.value):
+                            raise Bad('%s: class %s has a mutable class-level attribute: %s' % (rel, n.name, u(st)[:80]))
+                elif isinstance(n, (ast.FunctionDef, ast.Lambda)):
+                    for d in list(n.args.defaults) + [d for d in n.args.kw_defaults if d is not None]:
+                        if mutable(d):
+                            raise Bad('%s: %s has a mutable default argument: %s' % (rel, getattr(n, 'name', '<lambda>'), u(d)[:60]))
+        vals['state_facts'] = 'per-registry lookup cache; no mutable class attribute / default argument in 10 files'
+    guard('structural facts (where state lives)', state)
 
     def deriv():
         m = F.Module(src, 'pyramid/viewderivers.py')
